@@ -9,11 +9,33 @@ from vlib import common
 ctx = common.Ctx("SETUP", "quick", 0)
 # translators first (generated files are needed by the Coq build)
 tr = ctx.build_harness("translate")
-for what, out in (("grpcstatus", "GrpcStatusGen.v"), ("consts", "ConstGen.v"),
-                  ("gofn-math", "GoFnMathGen.v"), ("gofn-mp", "GoFnMpGen.v"), ("gofn-httpgun", "GoFnHttpgunGen.v"),
-                  ("gofn-istep", "GoFnIstepGen.v"), ("gofn-waiter", "GoFnWaiterGen.v"),
-                  ("gofn-instance", "GoFnInstanceGen.v")):
-    common.translate(ctx, what, out)
+# Every generated file is regenerated from /repo's current tree (a file left behind by a run against a scratch tree
+# - VERIF_REPO - must never survive into a build): all (translator, outfile) pairs the checks declare, then the
+# checks' own translator binaries (functions translate_* of checks/Cxx.py); generated files nobody regenerated are removed.
+import importlib
+import re
+pairs = set()
+for f in sorted(glob.glob(os.path.join(common.VERIF, "checks", "C*.py"))):
+    for what, out in re.findall(r'"([a-z][A-Za-z0-9-]*)",\s*"([A-Za-z0-9_]+Gen\.v)"', open(f).read()):
+        pairs.add((what, out))
+main_go = open(os.path.join(common.HARNESS, "cmd", "translate", "main.go")).read()
+known = set(re.findall(r'"([a-z][a-z0-9-]*)"', " ".join(re.findall(r"case ([^:]+):", main_go))))
+done = set()
+for what, out in sorted(pairs):
+    if what in known and common.translate(ctx, what, out):
+        done.add(out)
+for f in sorted(glob.glob(os.path.join(common.VERIF, "checks", "C*.py"))):
+    mod = importlib.import_module("checks." + os.path.basename(f)[:-3])
+    for name in sorted(dir(mod)):
+        if name.startswith("translate_") and callable(getattr(mod, name)):
+            before = {g: os.path.getmtime(g) for g in glob.glob(os.path.join(common.COQ, "Gen", "*Gen.v"))}
+            if getattr(mod, name)(ctx):
+                src = open(f).read()
+                done.update(re.findall(r'"([A-Za-z0-9_]+Gen\.v)"', src[src.index("def " + name):src.index("def " + name) + 2500]))
+for g in sorted(glob.glob(os.path.join(common.COQ, "Gen", "*Gen.v"))):
+    if os.path.basename(g) not in done:
+        print("SETUP: removing generated file nobody regenerated:", g)
+        os.remove(g)
 props = sorted(os.path.basename(p)[:-10] for p in glob.glob(os.path.join(common.VERIF, "checks", "C*.meta.json")))
 targets = []
 for p in props:
